@@ -459,13 +459,13 @@ func leafClass(n *Node) []string {
 		return []string{"children"}
 	case KIf:
 		if len(n.Arms) > 0 {
-			return []string{"ifelse"}
+			return []string{"if", "ifelse"}
 		}
 		return []string{"if"}
 	case KFor:
-		return []string{"for"}
+		return []string{"if", "for"}
 	case KSwitch:
-		return []string{"switch"}
+		return []string{"if", "switch"}
 	case KGoCode:
 		return []string{"gocode"}
 	case KDoctype:
@@ -516,7 +516,12 @@ func (r *reducer) canonWS(p *string, brace bool) {
 	}
 }
 
-func (r *reducer) canonStr(p *string, canon ...string) {
+// canonStr replaces *p by the first canonical candidate that keeps the
+// failure; otherwise it shortens it (rune-wise; canonExpr: token-wise).
+func (r *reducer) canonStr(p *string, canon ...string)  { r.canonS(p, false, canon...) }
+func (r *reducer) canonExpr(p *string, canon ...string) { r.canonS(p, true, canon...) }
+
+func (r *reducer) canonS(p *string, tokens bool, canon ...string) {
 	for _, c := range canon {
 		if *p == c {
 			return
@@ -528,7 +533,18 @@ func (r *reducer) canonStr(p *string, canon ...string) {
 			return
 		}
 	}
-	// shorten byte-wise (rune-wise for UTF-8)
+	if tokens {
+		ts := tokenize(o)
+		ts = ddmin(ts, func(q []string) bool {
+			*p = strings.Join(q, "")
+			ok := r.test(r.f.String())
+			*p = o
+			return ok
+		})
+		*p = strings.Join(ts, "")
+		return
+	}
+	// shorten rune-wise
 	rs := []rune(o)
 	if len(rs) > 200 {
 		return
@@ -546,9 +562,13 @@ func (r *reducer) canonStr(p *string, canon ...string) {
 func (r *reducer) canonList(list *[]*Node) {
 	for i := range *list {
 		n := (*list)[i]
-		// whole node -> canonical leaf of its kind
+		// whole node -> plain text (the most innocent kind), else -> canonical leaf of its kind
 		done := false
-		for _, lc := range leafClass(n) {
+		cands := leafClass(n)
+		if n.K != KText {
+			cands = append([]string{"text"}, cands...)
+		}
+		for _, lc := range cands {
 			m := leafModel(lc)
 			if nodeText(n) == nodeText(m) {
 				done = true
@@ -589,7 +609,7 @@ func (r *reducer) canonShell(n *Node) {
 	case KText:
 		r.canonStr(&n.S, "aa")
 	case KExpr:
-		r.canonStr(&n.S, "s")
+		r.canonExpr(&n.S, "s")
 		r.canonPads(&n.PadL, &n.PadR)
 	case KElem:
 		switch {
@@ -611,9 +631,9 @@ func (r *reducer) canonShell(n *Node) {
 		r.canonAttrs(n.Attrs)
 	case KRaw:
 		if n.N == "script" {
-			r.canonStr(&n.S, "var x;")
+			r.canonExpr(&n.S, "var x;")
 		} else {
-			r.canonStr(&n.S, "p{}")
+			r.canonExpr(&n.S, "p{}")
 		}
 		r.canonWS(&n.TagEnd, false)
 		r.canonAttrs(n.Attrs)
@@ -623,31 +643,44 @@ func (r *reducer) canonShell(n *Node) {
 		r.canonStr(&n.S, " c")
 	case KCall:
 		if n.Block {
-			r.canonStr(&n.S, "w()")
+			r.canonExpr(&n.S, "w()")
 			r.canonStr(&n.BlockPad, " ")
 			r.canonWS(&n.Lead, false)
 		} else {
-			r.canonStr(&n.S, "c()")
+			r.canonExpr(&n.S, "c()")
 		}
 	case KLegacyCall:
-		r.canonStr(&n.S, "c()")
+		r.canonExpr(&n.S, "c()")
 		r.canonPads(&n.PadL, &n.PadR)
 	case KChildren:
 		r.canonPads(&n.PadL, &n.PadR)
 	case KIf:
-		r.canonStr(&n.S, "b")
+		r.canonExpr(&n.S, "b")
 		r.canonWS(&n.Lead, true)
 		for _, a := range n.Arms {
 			if a.Head != "else" {
-				r.canonStr(&a.Head, "else if !b")
+				r.canonExpr(&a.Head, "else if !b")
 			}
 			r.canonWS(&a.Lead, true)
 		}
 	case KFor:
-		r.canonStr(&n.S, "_, v := range vs")
+		// a for body is laid out and generated like an if body: prefer if
+		oldS := n.S
+		if r.try(func() { n.K, n.S = KIf, "b" }, func() { n.K, n.S = KFor, oldS }) {
+			r.canonWS(&n.Lead, true)
+			break
+		}
+		r.canonExpr(&n.S, "_, v := range vs")
 		r.canonWS(&n.Lead, true)
 	case KSwitch:
-		r.canonStr(&n.S, "s")
+		if len(n.Arms) == 1 {
+			o := *n
+			if r.try(func() { n.K, n.S, n.Lead, n.Kids, n.Arms = KIf, "b", o.Arms[0].Lead, o.Arms[0].Kids, nil }, func() { *n = o }) {
+				r.canonWS(&n.Lead, true)
+				break
+			}
+		}
+		r.canonExpr(&n.S, "s")
 		r.canonWS(&n.Lead, true)
 		for i, a := range n.Arms {
 			if strings.HasPrefix(a.Head, "case") {
@@ -658,7 +691,7 @@ func (r *reducer) canonShell(n *Node) {
 			r.canonWS(&a.Lead, true)
 		}
 	case KGoCode:
-		r.canonStr(&n.S, "v := 1")
+		r.canonExpr(&n.S, "v := 1")
 		r.canonPads(&n.PadL, &n.PadR)
 	case KDoctype:
 		r.canonStr(&n.S, "html")
@@ -671,22 +704,26 @@ func (r *reducer) canonAttrs(as []*Attr) {
 		switch a.K {
 		case AConst:
 			r.canonStr(&a.Name, "title")
-			r.canonStr(&a.Raw, `="v"`)
+			r.canonStr(&a.Val, "v")
+			if a.Q != `"` {
+				o := a.Q
+				r.try(func() { a.Q = `"` }, func() { a.Q = o })
+			}
 		case ABool:
 			r.canonStr(&a.Name, "disabled")
 		case ABoolExpr:
 			r.canonStr(&a.Name, "disabled")
-			r.canonStr(&a.S, "b")
+			r.canonExpr(&a.S, "b")
 			r.canonPads(&a.PadL, &a.PadR)
 		case AExpr:
 			r.canonStr(&a.Name, "title")
-			r.canonStr(&a.S, "s")
+			r.canonExpr(&a.S, "s")
 			r.canonPads(&a.PadL, &a.PadR)
 		case ASpread:
-			r.canonStr(&a.S, "at")
+			r.canonExpr(&a.S, "at")
 			r.canonPads(&a.PadL, &a.PadR)
 		case ACond:
-			r.canonStr(&a.S, "b")
+			r.canonExpr(&a.S, "b")
 			r.canonAttrs(a.Then)
 			r.canonAttrs(a.Else)
 			r.canonWS(&a.ThenEnd, false)
